@@ -758,6 +758,33 @@ func main() {
 		bench()
 		return
 	}
+	if len(os.Args) > 2 && os.Args[1] == "probe" {
+		// development aid: every cell of one graph (JSON file), both variants; prints the cells
+		// that do not conform
+		var g graph
+		b, _ := os.ReadFile(os.Args[2])
+		if err := json.Unmarshal(b, &g); err != nil {
+			fmt.Println(err)
+			return
+		}
+		st := &stats{outcomes: map[string]int64{}}
+		for _, thr := range []bool{false, true} {
+			cells := g.cells(thr)
+			res := st.run(g.source(generic, thr, cells))
+			out, ended := parseOut(res.Out)
+			bad := 0
+			for _, c := range cells {
+				v, ok := out[c.id(&g)]
+				got, want := norm(v, ok), g.expect(c, generic)
+				if vd := verdict(want, got); vd != "" {
+					bad++
+					fmt.Printf("  %s %s: want=%s got=%s (%s)\n", c.id(&g), g.describe(c), want, got, vd)
+				}
+			}
+			fmt.Printf("throwable=%v cells=%d failing=%d ended=%v kind=%s\n", thr, len(cells), bad, ended, res.Kind)
+		}
+		return
+	}
 	c := ev.New("C08")
 	defer runner.Cleanup()
 	if c.Replay != "" {
